@@ -8,12 +8,13 @@ claim(
     "C01",
     "other",
     "Partial (mechanisms 1 and 3 of 4). Unbounded proof (Verus, requires/ensures/invariant/decreases on the function text extracted by span on every run "
-    "from parse/base.rs, sass.rs, stylesheet.rs, media_query.rs, keyframes.rs, at_root_query.rs and value.rs: 7 units, 50 functions) that the scanner layer of all "
+    "from parse/base.rs, sass.rs, stylesheet.rs, media_query.rs, keyframes.rs, at_root_query.rs, value.rs, lexer.rs, error.rs, lib.rs and common.rs: 13 units, 80 functions) that the scanner layer of all "
     "three syntaxes - BaseParser's 20 scanning methods incl. declaration_value, the indented syntax's overrides, indentation look-ahead and comment parsers, the "
     "stylesheet parser's interpolation/comment/url/string/almost-any-value/declaration-value scanners, the media-query, keyframes-selector and @at-root query parsers, "
     "the number-literal scanners - terminates on every token buffer, keeps the cursor inside the buffer, never modifies the buffer, satisfies the progress clauses its "
     "callers' measures need, has no integer overflow/underflow, and never reaches an unwrap()/unreachable!()/todo!()/raw_text/hex_char_for/char::from_u32().unwrap() "
-    "precondition failure; relative to one assumed, undischarged contract (the expression parser does not move the cursor backwards or touch the buffer). The Lexer interface and the leaf methods Verus "
+    "precondition failure; the error conversion chain (SassError::raw/kind, raw_to_parse_error: mechanism 4) keeps its two unreachable!()s unreachable for every error value; the real Lexer "
+    "functions meet, for buffers of any length, the interface contracts the parser units assume; relative to one assumed, undischarged contract (the expression parser does not move the cursor backwards or touch the buffer). The Lexer interface and the leaf methods Verus "
     "cannot take (expect_char, scan, scan_ident_char, consume/expect_identifier) are discharged by Kani on the real code (bounded: buffer <= 4 tokens, "
     "loop-free functions); the char helpers and std specifications over all char/u32 (complete). Number::convert's precondition (table entry exists) "
     "is discharged at its call sites in sass_number.rs (all 37x37 simple unit pairs), Value::cmp and clamp() (unit representatives). Level 'other' "
